@@ -139,6 +139,35 @@ theorem runPkg_canon (C : Containers) (ops : List Op)
       · rw [ih'.1]; exact map_canon_modify C (applyIns i) hinv p pkg
       · rw [ih'.2]; simp [stepPkg]
 
+/-! ### the executable tree equality used by the driver and the examples is equality -/
+
+mutual
+theorem same_sound : ∀ a b : XT, same a b = true → a = b
+  | .mk t1 a1 k1, .mk t2 a2 k2, h => by
+    simp only [same, Bool.and_eq_true, beq_iff_eq] at h
+    obtain ⟨⟨ht, ha⟩, hk⟩ := h
+    rw [ht, ha, sameL_sound k1 k2 hk]
+theorem sameL_sound : ∀ a b : List XT, sameL a b = true → a = b
+  | [], [], _ => rfl
+  | x :: xs, y :: ys, h => by
+    simp only [sameL, Bool.and_eq_true] at h
+    rw [same_sound x y h.1, sameL_sound xs ys h.2]
+  | [], _ :: _, h => by simp [sameL] at h
+  | _ :: _, [], h => by simp [sameL] at h
+end
+
+mutual
+theorem same_refl : ∀ a : XT, same a a = true
+  | .mk t as ks => by simp [same, sameL_refl ks]
+theorem sameL_refl : ∀ l : List XT, sameL l l = true
+  | [] => rfl
+  | x :: xs => by simp [sameL, same_refl x, sameL_refl xs]
+end
+
+/-- `same` decides equality of trees -/
+theorem same_iff (a b : XT) : same a b = true ↔ a = b :=
+  ⟨same_sound a b, fun h => h ▸ same_refl a⟩
+
 /-! ### non-vacuity -/
 
 /-- tags: 1 = a:p, 2 = a:pPr (rootable), 3 = a:defRPr (inner), 4 = a:r, 5 = p:txBody -/
